@@ -283,6 +283,10 @@ class EmitT:
             if n.startswith('llvm.memset'): o.append('  memset(%s, %s, %s);' % tuple(args[:3])); return
             if n.startswith('llvm.'): return Emit.call(s, i, R, o)
             if n == '__assert_fail': o.append('  VERIF_LIBASSERT();'); return
+            # function-local statics: single-threaded model of the guard protocol
+            if n == '__cxa_guard_acquire': o.append('  %s(*(uint8_t*)%s == 0);' % (asg, args[0])); return
+            if n == '__cxa_guard_release': o.append('  *(uint8_t*)%s = 1;' % args[0]); return
+            if n == '__cxa_guard_abort': return
             if n in LIBCT:
                 o.append('  %s%s;' % (asg, LIBCT[n](args, s.cty(i.ty)))); return
             if i.callee.val in s.m.funcs or i.callee.val in s.m.decls:
@@ -311,7 +315,7 @@ def translate_typed(text, opts):
     protos, bodies, gdefs, ginits = [], [], [], []
     for name, d in m.decls.items():
         n = name[1:]
-        if n.startswith('llvm.') or n in LIBCT or n in ('memcpy', 'memset', 'memmove', '__assert_fail'): continue
+        if n.startswith('llvm.') or n in LIBCT or n in ('memcpy', 'memset', 'memmove', '__assert_fail', '__cxa_guard_acquire', '__cxa_guard_release', '__cxa_guard_abort'): continue
         protos.append(e.proto(name, d['ret'], [(t, '%a' + str(k)) for k, (t, _) in enumerate(d['args'])], d.get('sx', (set(), False))) + ';')
     for name, f in m.funcs.items(): protos.append(e.proto(name, f['ret'], f['args'], f.get('sx', (set(), False))) + ';')
     for name, g in m.globals.items():
